@@ -7,6 +7,7 @@ CONSTANTS
     Ks = {2, 3}
     MaxIters = {1, 2, 3, 4}
     LCM = 60
+    ShowEmpty = FALSE
     Replay = FALSE
 SPECIFICATION Spec
 INVARIANT FitCorrect
